@@ -115,9 +115,17 @@ fn same_value_bits(a: &Value, b: &Value) -> bool {
 }
 
 fn judge(fields: &[Field], big: bool, loc: &mut Local) {
+    judge_cuts(fields, big, false, loc)
+}
+
+/// `sparse`: for long payloads only the cuts around every field boundary (+-1), the first and the
+/// last 24 positions are tried instead of every truncation.
+fn judge_cuts(fields: &[Field], big: bool, sparse: bool, loc: &mut Local) {
     let mut exact = vec![];
+    let mut boundaries: Vec<usize> = vec![];
     for f in fields {
         encode_field(f, big, &mut exact);
+        boundaries.push(exact.len());
     }
     let types: Vec<TypeInfo> = fields.iter().enumerate().map(|(i, f)| type_info_for(kind_of(f), i)).collect();
     let e = if big { Endianness::Big } else { Endianness::Little };
@@ -127,7 +135,29 @@ fn judge(fields: &[Field], big: bool, loc: &mut Local) {
     loc.traces += 1;
     // variants: every truncation 0..len-1, exact, +1 byte, +3 bytes
     let n = exact.len();
-    for v in 0..n + 3 {
+    let mut wanted: Vec<usize> = vec![];
+    if sparse && n > 64 {
+        let mut w: Vec<usize> = (0..24.min(n)).chain(n.saturating_sub(24)..n).collect();
+        // at most ~200 boundaries, evenly spread, plus the first and last 8
+        let nb = boundaries.len();
+        let step = (nb / 200).max(1);
+        for (bi, b) in boundaries.iter().enumerate() {
+            if bi % step == 0 || bi < 8 || bi + 8 >= nb {
+                for d in [-3i64, -2, -1, 0, 1, 2] {
+                    let c = *b as i64 + d;
+                    if c >= 0 && (c as usize) < n {
+                        w.push(c as usize);
+                    }
+                }
+            }
+        }
+        w.sort_unstable();
+        w.dedup();
+        wanted = w;
+        wanted.extend([n, n + 1, n + 2]);
+    }
+    let all: Vec<usize> = if wanted.is_empty() { (0..n + 3).collect() } else { wanted };
+    for v in all {
         let data: Vec<u8> = if v < n {
             exact[..v].to_vec()
         } else {
@@ -248,6 +278,88 @@ pub fn run(ctx: &Ctx) {
                 j /= m;
             }
             judge(&fields, big, loc);
+        }));
+    }
+    // long lists: cursor arithmetic far beyond 255 / 65535 bytes and many arguments
+    {
+        let kinds = supported_kinds();
+        let counts: Vec<usize> = {
+            let mut v: Vec<usize> = (4..=40).collect();
+            v.extend([63, 64, 65, 100, 127, 128, 129, 254, 255, 256, 257, 300, 1000, 4097]);
+            if ctx.tier == Tier::Thorough {
+                v.extend([8191, 8192, 8193, 16_384, 32_768, 65_535, 65_536, 70_000]);
+            } else {
+                v.extend([8192, 8193, 65_536]);
+            }
+            v
+        };
+        // list shapes: 0..15 = homogeneous runs of each of the 15 supported kinds (values varying
+        // with the position), 15 = cycling through every kind, 16 = cycling backwards
+        let nshapes = kinds.len() + 2;
+        let sp = Space::new(&[counts.len(), nshapes, 2]);
+        let s2 = sp.clone();
+        let (counts, kinds) = (&counts, &kinds);
+        ctx.run_family(Family::new("c13.long_lists", sp.size(), format!("lists of N fields for N in {:?} x {} shapes (a homogeneous run of each supported kind with position-dependent values -- payloads beyond 65535 bytes for the wide kinds --, cycling through the 15 kinds forwards / backwards) x both byte orders; exact payload, trailing bytes and the truncations around field boundaries", counts, nshapes), move |i, loc| {
+            let c = s2.coords(i);
+            let n = counts[c[0]];
+            let shape = c[1];
+            // strings / raw data / cycling shapes stay below ~1.2 MB
+            let wide = shape >= kinds.len() || matches!(kinds[shape.min(kinds.len() - 1)], RefKind::Str | RefKind::Raw);
+            let n = if wide && n > 8193 { 8193 } else { n };
+            let val = |k: RefKind, j: usize| -> RefValue {
+                match k {
+                    RefKind::Bool => RefValue::Bool((j % 2) as u8),
+                    RefKind::Uint(w) => RefValue::U((0x0102_0304_0506_0708_090A_0B0C_0D0E_0F10u128 ^ (j as u128 * 0x0101)) & if w == 16 { u128::MAX } else { (1u128 << (8 * w as u32)) - 1 }, w),
+                    RefKind::Sint(w) => {
+                        let bits = 8 * w as u32;
+                        let raw = (0xF1E2_D3C4_B5A6_9788_796A_5B4C_3D2E_1F00u128 ^ (j as u128 * 0x0301)) & if w == 16 { u128::MAX } else { (1u128 << bits) - 1 };
+                        let v: i128 = if w == 16 { raw as i128 } else if raw >> (bits - 1) & 1 == 1 { raw as i128 - (1i128 << bits) } else { raw as i128 };
+                        RefValue::I(v, w)
+                    }
+                    RefKind::Float(4) => RefValue::F32(0x3F80_0000u32.wrapping_add((j as u32).wrapping_mul(0x0001_0203))),
+                    RefKind::Float(_) => RefValue::F64(0x3FF0_0000_0000_0000u64.wrapping_add((j as u64).wrapping_mul(0x0001_0203_0405_0607))),
+                    RefKind::Str => RefValue::Str(["ab", "", "é€", "xyz"][j % 4].to_string()),
+                    RefKind::Raw => RefValue::Raw(vec![j as u8; j % 5]),
+                    _ => default_value(k),
+                }
+            };
+            let fields: Vec<Field> = (0..n)
+                .map(|j| {
+                    let k = if shape < kinds.len() { kinds[shape] } else if shape == kinds.len() { kinds[j % kinds.len()] } else { kinds[kinds.len() - 1 - (j % kinds.len())] };
+                    Field::Val(k, val(k, j))
+                })
+                .collect();
+            judge_cuts(&fields, c[2] == 1, true, loc);
+        }).chunk(1));
+    }
+    // length sweep of string / raw fields between two fixed-size fields
+    {
+        let lens = crate::universe::sweep_lengths(ctx.tier);
+        let sp = Space::new(&[lens.len(), 2, 2]);
+        let s2 = sp.clone();
+        let lens = &lens;
+        ctx.run_family(Family::new("c13.len_sweep", sp.size(), format!("[uint8, string|raw of L bytes, uint16] for {} lengths L ({}) x both byte orders; exact, trailing bytes, truncations around the field boundaries", lens.len(), crate::universe::sweep_lengths_about(ctx.tier)), move |i, loc| {
+            let c = s2.coords(i);
+            let l = lens[c[0]].min(65_535);
+            let mid = if c[1] == 0 { Field::Val(RefKind::Str, RefValue::Str("s".repeat(l))) } else { Field::Val(RefKind::Raw, RefValue::Raw((0..l).map(|k| (k * 13 + l) as u8).collect())) };
+            let fields = vec![Field::Val(RefKind::Uint(1), RefValue::U(7, 1)), mid, Field::Val(RefKind::Uint(2), RefValue::U(0x0102, 2))];
+            judge_cuts(&fields, c[2] == 1, true, loc);
+        }));
+    }
+    // value sweep: bit-level coverage of every numeric kind, at an even and at an odd offset
+    {
+        let args: Vec<Field> = crate::universe::value_sweep_args(ctx.tier).into_iter().filter(|a| !is_fixp(a.kind)).map(|a| Field::Val(a.kind, a.value)).collect();
+        let sp = Space::new(&[args.len(), 2, 2]);
+        let s2 = sp.clone();
+        let args = &args;
+        ctx.run_family(Family::new("c13.value_sweep", sp.size(), format!("{} single values (all 256 values of the 8-bit kinds, 16-bit kinds over all low bytes, walking ones/zeros of the 32..128-bit kinds, float exponent sweeps) alone or after a bool (odd offset) x both byte orders", args.len()), move |i, loc| {
+            let c = s2.coords(i);
+            let mut fields = vec![];
+            if c[1] == 1 {
+                fields.push(Field::Val(RefKind::Bool, RefValue::Bool(1)));
+            }
+            fields.push(args[c[0]].clone());
+            judge(&fields, c[2] == 1, loc);
         }));
     }
     // maximal length prefixes
